@@ -169,7 +169,7 @@ PROPS = {
         assumptions=['worker processes: fork start method of this platform', 'the split comparison ignores event creation numbers (the extra marker event shifts them)']),
     'C04': dict(
         vfile='Props/C04.v', ties=['Tie/TieEnv.v', 'Tie/TieFloor.v'],
-        families=[('line', 500, 15000, 'small', 'large')],
+        families=[('line', 500, 15000, 'small', 'large'), ('floor', 100, 3000, 'small', 'large')],
         rule='F_line scenarios: serial lines source -> 1..8 stations (handlers, processors, buffers with capacity 1..5/unbounded and delays incl. 0) -> sink, cycle times incl. 0 on a 1/8 grid and a 1-tick grid, '
              'source budgets, horizons 40..800, single steps and split runs, three weight sources; generated from VERIF_SEED; '
              'non-trivial = at least 6 parts received with a buffer in the line, or at least 10 parts received; distinct by scenario text',
